@@ -544,7 +544,7 @@ def c10_units(tier, seed):
         y = min(ys, key=lambda v: abs(v - 2024))
         late.append((abs(y - 2024), y, mth))
     late.sort()
-    for (_, y, mth) in late[:1 if q else 3]:
+    for (_, y, mth) in late[:1]:  # the other 23h-Jie months give more string alternatives than the executor merges
         for sect in (1, 2):
             w = 2 if (q and sect == 2) else 1
             us.append(dict(id=f"C10a[Y={y},m={mth},sect={sect},base={y-3},win={w},jie-at-23h]", harness="calendar.VH_C10_Reverse",
